@@ -30,6 +30,8 @@ func runC19(w *World, r *Report) {
 	c19OneSinkAndGuard(w, r)
 	c19Scoped(w, r)
 	c19Siblings(w, r)
+	c19SetterTotal(w, r)
+	c19PerItem(w, r)
 }
 
 func urlFieldLoad(v ssa.Value, field string) (base ssa.Value, ok bool) {
@@ -405,4 +407,162 @@ func c19Siblings(w *World, r *Report) {
 	if n == 0 {
 		r.Unk("C19/SIBLINGS", "no-instance", "-", "no function combines a --repo lookup with a credentialed download")
 	}
+}
+
+// c19SetterTotal: the option constructors that carry or scope credentials install what they were
+// given, unconditionally. Callers rely on WithBasicAuth("", "") to wipe credentials taken from flags
+// when a chart URL is on another origin, and on WithURL to scope them.
+func c19SetterTotal(w *World, r *Report) {
+	r.Rule("C19/SETTER-TOTAL", "the getter options WithBasicAuth, WithPassCredentialsAll and WithURL store their arguments into the option fields on every path (so that a later option always overrides an earlier one, including with empty values)", 3)
+	want := map[string][]string{"WithBasicAuth": {"username", "password"}, "WithPassCredentialsAll": {"passCredentialsAll"}, "WithURL": {"url"}}
+	for _, name := range []string{"WithBasicAuth", "WithPassCredentialsAll", "WithURL"} {
+		fn := w.Fn("pkg/getter", name)
+		if fn == nil {
+			r.Unk("C19/SETTER-TOTAL", name, "-", "getter."+name+" not found")
+			continue
+		}
+		r.Fn(FuncName(fn))
+		var cl *ssa.Function
+		for _, a := range fn.AnonFuncs {
+			cl = a
+		}
+		if cl == nil || len(fn.AnonFuncs) != 1 {
+			r.Bad("C19/SETTER-TOTAL", name, w.Pos(fn.Pos()), "the option is not a single closure over its arguments")
+			continue
+		}
+		g := FullGraph(cl)
+		bad := ""
+		for i, fld := range want[name] {
+			var stores []ssa.Instruction
+			okVal := true
+			for _, b := range cl.Blocks {
+				for _, in := range b.Instrs {
+					st, ok := in.(*ssa.Store)
+					if !ok {
+						continue
+					}
+					if _, _, f := fieldNameOf(st.Addr); f == fld {
+						stores = append(stores, st)
+						if i < len(fn.Params) && resolveToParam(st.Val) != ssa.Value(fn.Params[i]) {
+							okVal = false
+						}
+					}
+				}
+			}
+			if len(stores) == 0 {
+				bad = "field " + fld + " is never set"
+				continue
+			}
+			if !okVal {
+				bad = "field " + fld + " is set from something other than the option's argument"
+			}
+			for _, rp := range g.classifyReturns() {
+				if ex, _ := g.PathExists(entryPos(cl), posOf(rp.Ret), avoidInstrs(stores...)); ex {
+					bad = "a path through the option leaves field " + fld + " as it was"
+				}
+			}
+		}
+		r.Check(bad == "", "C19/SETTER-TOTAL", name, w.Pos(fn.Pos()), "the option always installs its arguments", bad+": credentials set by an earlier option survive where the caller meant to replace or clear them")
+	}
+}
+
+// c19PerItem: inside a loop over dependencies (or repositories) the object that receives the
+// credentials option is created in the same iteration: nothing carries one item's credentials to the next.
+func c19PerItem(w *World, r *Report) {
+	r.Rule("C19/PER-ITEM", "where credentials are attached inside a loop (one repository or dependency per iteration) the downloader or option list that receives getter.WithBasicAuth is created inside that iteration", 1)
+	wba := w.Fn("pkg/getter", "WithBasicAuth")
+	if wba == nil {
+		return
+	}
+	n := 0
+	for _, fn := range w.HelmFuncs() {
+		if strings.Contains(fnPkgPath(fn), "/pkg/getter") {
+			continue
+		}
+		var scc map[*ssa.BasicBlock][]*ssa.BasicBlock
+		for _, c := range callInstrs(fn) {
+			f, _ := calleeOf(c.Common())
+			if f == nil || origin(f) != wba {
+				continue
+			}
+			if scc == nil {
+				scc = sccOf(fn)
+			}
+			comp := scc[c.Block()]
+			if len(comp) <= 1 {
+				continue // not in a loop
+			}
+			in := map[*ssa.BasicBlock]bool{}
+			for _, b := range comp {
+				in[b] = true
+			}
+			// the containers the option flows into
+			roots := optionContainers(c.Value())
+			n++
+			r.Fn(FuncName(fn))
+			bad := ""
+			for _, a := range roots {
+				if !in[a.Block()] {
+					bad = w.InstrPos(a)
+				}
+			}
+			r.Check(bad == "" && len(roots) > 0, "C19/PER-ITEM", FuncName(fn)+"/"+siteKey(Site{fn, c, posOf(c)}), w.InstrPos(c), "the credentials go into an object created in the same iteration", "the credentials are added to an object created outside the loop ("+bad+"): they are carried over to the items that follow")
+		}
+	}
+	if n == 0 {
+		r.OKTrivial("C19/PER-ITEM", "none", "-", "no credentials option is built inside a loop")
+	}
+}
+
+// optionContainers follows an option value forward into the allocations that end up holding it
+// (array behind a slice literal, slice field of a struct, result of append stored back).
+func optionContainers(v ssa.Value) []*ssa.Alloc {
+	var out []*ssa.Alloc
+	seen := map[ssa.Value]bool{}
+	var fwd func(v ssa.Value, d int)
+	rootOfAddr := func(a ssa.Value) *ssa.Alloc {
+		for d := 0; d < 6; d++ {
+			switch x := a.(type) {
+			case *ssa.Alloc:
+				return x
+			case *ssa.IndexAddr:
+				a = x.X
+			case *ssa.FieldAddr:
+				a = x.X
+			default:
+				return nil
+			}
+		}
+		return nil
+	}
+	fwd = func(v ssa.Value, d int) {
+		if v == nil || seen[v] || d > 8 || v.Referrers() == nil {
+			return
+		}
+		seen[v] = true
+		for _, rf := range *v.Referrers() {
+			switch x := rf.(type) {
+			case *ssa.Store:
+				if x.Val != v {
+					continue
+				}
+				if al := rootOfAddr(x.Addr); al != nil {
+					out = append(out, al)
+					// a slice literal's backing array: follow the slice made from it
+					fwd(al, d+1)
+				}
+			case *ssa.Slice:
+				fwd(x, d+1)
+			case *ssa.Call:
+				if bi, ok := x.Call.Value.(*ssa.Builtin); ok && bi.Name() == "append" {
+					fwd(x, d+1)
+				}
+			case *ssa.Phi, *ssa.MakeInterface, *ssa.ChangeType:
+				fwd(x.(ssa.Value), d+1)
+			}
+		}
+	}
+	fwd(v, 0)
+	// keep the outermost holders: a struct alloc that received a slice built from an array alloc
+	return out
 }
